@@ -43,6 +43,8 @@ structure DecOpts where
   disallowUnknown : Bool := false
   caseSensitive : Bool := false
   validateString : Bool := false
+  /-- CopyString: no effect on the decoded value; it switches off optdec's fastmap path -/
+  copyString : Bool := false
 deriving Repr, Inhabited
 
 /-- `d.saveError`: the first error is kept (decode.go:260); `outside` is sticky so that the driver never
